@@ -143,79 +143,5 @@ theorem mapLoop_members (buf : Buf) (v : Ty) (hc : cov v = true) (q : Nat) (ms :
           simp [decodeMap, decodeKey, hdd, h1.1]
 
 
-/-- **an object value, for every type that looks at the text itself** -/
-theorem obj_base (buf : Buf) (s e : Nat) (ms : List (List UInt8 × Json)) (hb : buf[s]? = some 123)
-    (hshape : (ms = [] ∧ buf[skipWs buf (s + 1)]? = some 125 ∧ e = skipWs buf (s + 1) + 1) ∨ Members buf (skipWs buf (s + 1)) ms e) :
-    ∀ f ty i, cov ty = true → direct ty = true → skipWs buf i = s → de f ty buf i ≠ .fuel →
-      Stab buf ty (.obj ms) e (de f ty buf i) := by
-  intro f ty i hcov hdir hs hne
-  cases f with
-  | zero => exact absurd (by rw [de]) hne
-  | succ f =>
-    have hsp := skipSpace_at buf i s 123 hs hb
-    have hE : EntryK buf (s + 1) true (skipWs buf (s + 1)) := Or.inl ⟨rfl, rfl⟩
-    cases ty with
-    | map k v =>
-      have hk : k = .str := by cases k <;> simp [cov] at hcov ⊢
-      subst hk
-      have hcv : cov v = true := by simpa [cov] using hcov
-      rw [de] at hne ⊢
-      simp only [hsp, beq_self_eq_true, if_true] at hne ⊢
-      rcases hshape with ⟨rfl, hcl, rfl⟩ | hm
-      · cases f with
-        | zero => exact absurd (by rw [mapLoop]) hne
-        | succ f =>
-          rw [mapLoop, nextKey_end buf (s + 1) true hcl]
-          simp only [endMap_at buf _ _ (by rw [skipWs_idem]; exact hcl), skipWs_idem]
-          refine ⟨2, ?_⟩
-          intro g hg
-          obtain ⟨g', rfl⟩ : ∃ g', g = g' + 2 := ⟨g - 2, by omega⟩
-          simp [decode, decodeMap, ofOpt]
-      · have hne2 : mapLoop f .str v buf (s + 1) true [] ≠ .fuel := by
-          intro h; rw [h] at hne; exact hne rfl
-        obtain ⟨g0, hg0⟩ := mapLoop_members buf v hcv _ ms e hm f (s + 1) true [] hE hne2
-        obtain ⟨hend1, hend2⟩ := members_end buf _ ms e hm
-        have hq : buf[skipWs buf (s + 1)]? = some 34 := by
-          cases hm with
-          | last q k k1 x e1 hq _ _ _ _ => exact hq
-          | cons q k k1 x e1 ms e hq _ _ _ _ _ => exact hq
-        refine ⟨g0 + 1, ?_⟩
-        intro g hg
-        obtain ⟨g', rfl⟩ : ∃ g', g = g' + 1 := ⟨g - 1, by omega⟩
-        have := hg0 g' (by omega)
-        simp only [decode]
-        cases hr : mapLoop f .str v buf (s + 1) true [] with
-        | ok kvs e' =>
-          rw [hr] at this
-          simp only [R.map] at this
-          cases hdm : decodeMap buf g' .str v ms [] with
-          | none => rw [hdm] at this; simp [ofOpt] at this
-          | some w =>
-            rw [hdm] at this
-            simp only [ofOpt, R.ok.injEq] at this
-            obtain ⟨h1, h2⟩ := this
-            subst h2
-            simp [ofOpt, endMap_at buf _ _ hend1, hend2, h1]
-        | err =>
-          rw [hr] at this
-          simp only [R.map] at this
-          cases hdm : decodeMap buf g' .str v ms [] with
-          | none => rfl
-          | some w => rw [hdm] at this; simp [ofOpt] at this
-        | fuel => exact absurd hr hne2
-    | opt t => simp [direct] at hdir
-    | newtype t => simp [direct] at hdir
-    | strRef => simp [cov] at hcov
-    | struct fs d => simp [cov] at hcov
-    | enum vs => simp [cov] at hcov
-    | int bits sg =>
-      have h64 : bits ≤ 64 := by simpa [cov] using hcov
-      rw [de]; simp [h64, deInt, hsp, isDigit]
-      exact stab_err _ _ _ _ (by intro g; simp [decode])
-    | _ =>
-      rw [de]
-      simp [hsp, deF64, deStrRaw, isDigit]
-      exact stab_err _ _ _ _ (by intro g; simp [decode])
-
 end De
 end Sonic
